@@ -48,6 +48,7 @@ var pipeline bool   // C16 mode: coalescers + snapshot on, observe emitted (log)
 var scratchDir string
 
 type run struct {
+	refLog int
 	upd    int
 	logPos int
 	n     *quiet.Node
@@ -289,6 +290,15 @@ func (r *run) observe(queued [][]byte) map[string]interface{} {
 	}
 }
 
+// newRefutes: refutation goroutines spawned since the last call (serf logs the decision synchronously inside the
+// handler, before the `go` statement), so the driver does not depend on the model's hint.
+func (r *run) newRefutes() int {
+	n := strings.Count(r.n.LogBuf.String(), "Refuting an older leave intent")
+	d := n - r.refLog
+	r.refLog = n
+	return d
+}
+
 // awaitRefutes waits (bounded) until w join intents about the local node have been queued.
 func (r *run) awaitRefutes(w int, got [][]byte) [][]byte {
 	deadline := time.Now().Add(1 * time.Second)
@@ -351,7 +361,9 @@ func (r *run) step(st h.Step) map[string]interface{} {
 		} else {
 			r.n.Del.NotifyMsg(quiet.Encode(quiet.TLeave, quiet.MsgLeave{LTime: lt, Node: name, Prune: st.Int("prune") == 1}))
 		}
-		q = r.awaitRefutes(st.Int("w"), r.n.Drain())
+		w := r.newRefutes()
+		st["w"] = w
+		q = r.awaitRefutes(w, r.n.Drain())
 	case "merge":
 		pp := st.Rec("pp")
 		m := quiet.MsgPushPull{LTime: uint64(pp.Int("lt")), StatusLTimes: map[string]uint64{}, LeftMembers: []string{}}
@@ -365,7 +377,9 @@ func (r *run) step(st h.Step) map[string]interface{} {
 			}
 		}
 		r.n.Del.MergeRemoteState(quiet.Encode(quiet.TPushPull, m), false)
-		q = r.awaitRefutes(st.Int("w"), r.n.Drain())
+		w := r.newRefutes()
+		st["w"] = w
+		q = r.awaitRefutes(w, r.n.Drain())
 	case "forceleave":
 		name := r.names[st.Int("x")]
 		q = r.pump(func() {
@@ -375,7 +389,9 @@ func (r *run) step(st h.Step) map[string]interface{} {
 				_ = r.n.Serf.RemoveFailedNode(name)
 			}
 		})
-		q = r.awaitRefutes(st.Int("w"), q)
+		w := r.newRefutes()
+		st["w"] = w
+		q = r.awaitRefutes(w, q)
 	case "bjoin":
 		_ = r.n.Serf.VerifBroadcastJoin()
 		q = r.n.Drain()
